@@ -47,7 +47,7 @@ static size_t unhex(const char *h, unsigned char *out) {
     return n;
 }
 /* exact-size heap copy so that ASan sees any over-read/over-write */
-static void *exact(const void *src, size_t n) { void *p = malloc(n ? n : 1); if (n) memcpy(p, src, n); return p; }
+static void *exact(const void *src, size_t n) { void *p = malloc(n); if (n) memcpy(p, src, n); return p; }
 
 /* ------------------------------------------------------------------ watchdog */
 static void on_alarm(int sig) { (void) sig; static const char m[] = "\n@@TIMEOUT\n"; if (write(2, m, sizeof m - 1)) {} _exit(124); }
@@ -87,7 +87,7 @@ static scpi_result_t generic(scpi_t *c) {
         else if (!strcmp(name, "PCHOICE")) { int32_t v = 0; AFTER(atoi(a1)) ok = SCPI_ParamChoice(c, choice_def, &v, mand); flushw(); oprintf(" P6:%d:", ok); if (ok) oprintf("%d", v); }
         else if (!strcmp(name, "PCHARS")) { const char *p = NULL; size_t l = 0; AFTER(atoi(a1)) ok = SCPI_ParamCharacters(c, &p, &l, mand); flushw(); oprintf(" P7:%d:", ok); if (ok) pvals_bytes((const unsigned char *) p, l); }
         else if (!strcmp(name, "PTEXT")) {
-            size_t bl = atoi(a1); AFTER(atoi(a2)) char *b = malloc(bl ? bl : 1); memset(b, 0x5a, bl ? bl : 1); size_t cl = 0;
+            size_t bl = atoi(a1); AFTER(atoi(a2)) char *b = malloc(bl); memset(b, 0x5a, bl); size_t cl = 0;   /* exact size, also for 0: a write at b[0] is then an ASan report */
             ok = SCPI_ParamCopyText(c, b, bl, &cl, mand); flushw(); oprintf(" P8:%d:", ok);
             if (ok) { oprintf("%d", (cl < bl && b[cl] == 0) ? 1 : 0); for (size_t i = 0; i < cl; i++) oprintf(",%d", (unsigned char) b[i]); }
             free(b); }
@@ -142,7 +142,7 @@ static scpi_result_t generic(scpi_t *c) {
             else if (size == 4) SCPI_ResultArrayUInt32(c, arr, n, fmt); else SCPI_ResultArrayUInt64(c, arr, n, fmt);
             free(arr); free(raw); }
         else if (!strcmp(name, "PUSH")) SCPI_ErrorPush(c, atoi(a1));
-        else if (!strcmp(name, "NUMS")) { int n = atoi(a1); int32_t *a = malloc(sizeof(int32_t) * (n ? n : 1)); for (int i = 0; i < n; i++) a[i] = -99; int r = SCPI_CommandNumbers(c, a, n, atoi(a2)); flushw(); oprintf(" N%d:", r); for (int i = 0; i < n; i++) oprintf("%s%d", i ? "," : "", a[i]); free(a); }
+        else if (!strcmp(name, "NUMS")) { int n = atoi(a1); int32_t *a = malloc(sizeof(int32_t) * (n)); for (int i = 0; i < n; i++) a[i] = -99; int r = SCPI_CommandNumbers(c, a, n, atoi(a2)); flushw(); oprintf(" N%d:", r); for (int i = 0; i < n; i++) oprintf("%s%d", i ? "," : "", a[i]); free(a); }
         else if (!strcmp(name, "ISCMD")) { unsigned char *t = malloc(strlen(a1) / 2 + 1); size_t n = unhex(a1, t); t[n] = 0; int r = SCPI_IsCmd(c, (char *) t); flushw(); oprintf(" I%d", r ? 1 : 0); free(t); }
         else if (!strcmp(name, "SYSTERR")) SCPI_SystemErrorNextQ(c);
         else if (!strcmp(name, "RETERR")) { ret = SCPI_RES_ERR; break; }
@@ -191,10 +191,10 @@ static void run_scenario(char *line) {
             } else free(pb);
         } else if (part[0] == 'I' || part[0] == 'L') {
             if (!inited) {
-                ibuf = malloc(cap ? cap : 1); memset(ibuf, 0x7f, cap ? cap : 1); eq = malloc(sizeof(scpi_error_t) * (qcap ? qcap : 1));
+                ibuf = malloc(cap); memset(ibuf, 0x7f, cap); eq = malloc(sizeof(scpi_error_t) * (qcap));
                 SCPI_Init(&ctx, cmds, &ifc, scpi_units_def, "a", "b", "c", "d", ibuf, cap, eq, qcap);
 #if USE_DEVICE_DEPENDENT_ERROR_INFORMATION && !USE_MEMORY_ALLOCATION_FREE
-                heap = malloc(hs ? hs : 1); SCPI_InitHeap(&ctx, heap, hs);
+                heap = malloc(hs); SCPI_InitHeap(&ctx, heap, hs);
 #endif
                 inited = 1;
             }
@@ -247,14 +247,14 @@ static void run_match(char *line) {
     char *pc = exact(p, pl + 1); char *hc = exact(h, hl + 1);
     oput("MATCH", 5);
     if (n < 0) { int r = matchCommand(pc, hc, hl, NULL, 0, dflt); oprintf(" %d", r ? 1 : 0); }
-    else { int32_t *a = malloc(4 * (n ? n : 1)); for (int i = 0; i < n; i++) a[i] = -99; int r = matchCommand(pc, hc, hl, a, n, dflt); oprintf(" %d:", r ? 1 : 0); for (int i = 0; i < n; i++) oprintf("%s%d", i ? "," : "", a[i]); free(a); }
+    else { int32_t *a = malloc(4 * (n)); for (int i = 0; i < n; i++) a[i] = -99; int r = matchCommand(pc, hc, hl, a, n, dflt); oprintf(" %d:", r ? 1 : 0); for (int i = 0; i < n; i++) oprintf("%s%d", i ? "," : "", a[i]); free(a); }
     free(pc); free(hc); free(p); free(h);
 }
 
 /* ------------------------------------------------------------------ integer formatting (kind I2S) */
 static void run_i2s(char *line) {
     int w, len, base, sign; unsigned hi, lo; sscanf(line, "I2S %d %u %u %d %d %d", &w, &hi, &lo, &len, &base, &sign);
-    uint64_t v = ((uint64_t) hi << 32) | lo; char *b = malloc(len ? len : 1); memset(b, 0x7e, len ? len : 1);
+    uint64_t v = ((uint64_t) hi << 32) | lo; char *b = malloc(len); memset(b, 0x7e, len);
     size_t r = w == 32 ? UInt32ToStrBaseSign((uint32_t) v, b, len, (int8_t) base, sign) : UInt64ToStrBaseSign(v, b, len, (int8_t) base, sign);
     oput("I2S ", 4); ohex(b, r < (size_t) len ? r : (size_t) len); oprintf(" %d %zu", (r < (size_t) len && b[r] == 0) ? 1 : 0, r); free(b);
 }
@@ -277,7 +277,7 @@ static void run_i2ssweep(char *line) {
             char exp[48]; size_t el = canon32(v, bases[bi], sign, exp);
             memset(full, 0x7e, 40); size_t r = UInt32ToStrBaseSign(v, full, 40, (int8_t) bases[bi], sign); n++;
             if (r != el || memcmp(full, exp, el) != 0 || full[el] != 0) { snprintf(bad, sizeof bad, "v=%u,base=%d,sign=%d,len=40,got=%.*s,r=%zu,want=%s", v, bases[bi], sign, (int) (r < 40 ? r : 40), full, r, exp); break; }
-            size_t tl = (size_t) ((v ^ (v >> 7) ^ (unsigned) bi) % (el + 2)); char *tb = malloc(tl ? tl : 1); memset(tb, 0x7e, tl ? tl : 1);
+            size_t tl = (size_t) ((v ^ (v >> 7) ^ (unsigned) bi) % (el + 2)); char *tb = malloc(tl); memset(tb, 0x7e, tl);
             r = UInt32ToStrBaseSign(v, tb, tl, (int8_t) bases[bi], sign); n++;
             size_t wantr = el < tl ? el : tl;
             if (r != wantr || memcmp(tb, exp, wantr) != 0 || (wantr < tl && tb[wantr] != 0)) snprintf(bad, sizeof bad, "v=%u,base=%d,sign=%d,len=%zu,r=%zu,want=%.*s", v, bases[bi], sign, tl, r, (int) wantr, exp);
@@ -351,7 +351,7 @@ static void run_eq(char *line) {
             sscanf(part, "EQ %d %d", &qcap, &hs); eq = malloc(sizeof(scpi_error_t) * qcap);
             SCPI_Init(&ctx, std_cmds, &ifc, scpi_units_def, "a", "b", "c", "d", ibuf, 64, eq, qcap);
 #if USE_DEVICE_DEPENDENT_ERROR_INFORMATION && !USE_MEMORY_ALLOCATION_FREE
-            heap = malloc(hs ? hs : 1); SCPI_InitHeap(&ctx, heap, hs);
+            heap = malloc(hs); SCPI_InitHeap(&ctx, heap, hs);
 #endif
         } else if (part[0] == 'P') {
             int code, len = 0, fail = 0; static char ih[1 << 15]; ih[0] = 0; sscanf(part, "P %d %32767s %d %d", &code, ih, &len, &fail);
@@ -384,7 +384,7 @@ static void run_eq(char *line) {
 static scpi_unit_t unit_of(const char *n) { for (int i = 0; scpi_units_def[i].name; i++) if (!strcmp(scpi_units_def[i].name, n)) return scpi_units_def[i].unit; return SCPI_UNIT_NONE; }
 static void run_fp2s(char *line) {
     uint64_t b; int len; char k = line[0]; sscanf(line + 4, "%" SCNx64 " %d", &b, &len);
-    char *buf = malloc(len ? len : 1); memset(buf, 0x7e, len ? len : 1); size_t r;
+    char *buf = malloc(len); memset(buf, 0x7e, len); size_t r;
     if (k == 'D') { double d; memcpy(&d, &b, 8); r = SCPI_DoubleToStr(d, buf, len); } else { uint32_t w = (uint32_t) b; float f; memcpy(&f, &w, 4); r = SCPI_FloatToStr(f, buf, len); }
     oprintf("%c2S ", k); ohex(buf, r < (size_t) len ? r : (size_t) len); oprintf(" %d %zu", (r < (size_t) len && buf[r] == 0) ? 1 : 0, r); free(buf);
 }
@@ -393,13 +393,13 @@ static void run_n2s(char *line) {
     int special, len; uint64_t b; char un[64]; sscanf(line, "N2S %d %" SCNx64 " %63s %d", &special, &b, un, &len);
     scpi_number_t v; memset(&v, 0, sizeof v); v.special = special; if (special) v.content.tag = (int32_t) b; else memcpy(&v.content.value, &b, 8);
     v.unit = strcmp(un, "-") ? unit_of(un) : SCPI_UNIT_NONE; v.base = 10; ginit();
-    char *buf = malloc(len ? len : 1); memset(buf, 0x7e, len ? len : 1);
+    char *buf = malloc(len); memset(buf, 0x7e, len);
     size_t r = SCPI_NumberToStr(&gctx, scpi_special_numbers_def, &v, buf, len);
     oput("N2S ", 4); for (int i = 0; i < len; i++) { if ((unsigned char) buf[i] == 0x7e) oput("--", 2); else ohex(buf + i, 1); } oprintf(" %zu", r); free(buf);
 }
 static void run_dtostre(char *line) {
     uint64_t b; int prec, size, flags = 0; sscanf(line, "DTOSTRE %" SCNx64 " %d %d %d", &b, &prec, &size, &flags); double d; memcpy(&d, &b, 8);
-    char *buf = malloc(size ? size : 1); memset(buf, 0x7e, size ? size : 1);
+    char *buf = malloc(size); memset(buf, 0x7e, size);
     oput("DTOSTRE ", 8);
     if (isfinite(d)) { char dg[40]; int decpt = 0, sign = 0; scpi_ecvt(signbit(d) ? -d : d, prec, &decpt, &sign, dg, 31); oprintf("%s,%d ", dg, decpt); } else oput("-,0 ", 4);
     char *r = SCPI_dtostre(d, buf, size, prec, flags); (void) r; size_t l = strnlen(buf, size); ohex(buf, l); oprintf(" %d", l < (size_t) size ? 1 : 0); free(buf);
